@@ -556,6 +556,44 @@ fn c17_mc_string_roundtrip_3() { mc_string_roundtrip::<3>() }
 #[kani::stub(core::str::from_utf8, stub_from_utf8)]
 fn c17_t_mc_string_roundtrip_6() { mc_string_roundtrip::<6>() }
 
+/// Concrete multi-byte strings (2-, 3- and 4-byte sequences): the length prefix is
+/// the UTF-8 byte length and the round trip is exact. (Cheap companion of the
+/// symbolic harness above, which times out if the encoder starts to walk the
+/// characters of a symbolic string.)
+#[cfg(kani)]
+fn mc_string_concrete(s: &str) {
+    let enc = mc_as_string(s);
+    match &enc {
+        Ok(bytes) => {
+            assert!(bytes.len() == s.len() + 1);
+            assert!(bytes[0] as usize == s.len());
+            let mut b = Buffer::<LittleEndian>::new(bytes);
+            let back = mc_get_string(&mut b);
+            match &back {
+                Ok(t) => assert!(bytes_eq(t.as_bytes(), s.as_bytes())),
+                Err(_) => assert!(false),
+            }
+            core::mem::forget(back);
+        }
+        Err(_) => assert!(false),
+    }
+    core::mem::forget(enc);
+}
+
+macro_rules! c17_mc_concrete {
+    ($name:ident, $s:expr) => {
+        #[cfg(kani)]
+        #[kani::proof]
+        #[kani::unwind(12)]
+        #[kani::stub(alloc::fmt::format, stub_format)]
+        #[kani::stub(core::str::from_utf8, stub_from_utf8)]
+        fn $name() { mc_string_concrete($s) }
+    };
+}
+c17_mc_concrete!(c17_mc_string_concrete_2byte, "\u{e9}");
+c17_mc_concrete!(c17_mc_string_concrete_3byte, "a\u{6f22}");
+c17_mc_concrete!(c17_mc_string_concrete_4byte, "\u{1f600}b");
+
 /// get_string on arbitrary bytes never leaves the packet and never panics;
 /// a declared length larger than the packet is an error.
 #[cfg(kani)]
